@@ -151,28 +151,91 @@ def render(proj):
             referenced.add(p["key"])
         extra.append("var Default = %s\n" % ref)
     for p in proj["pkgs"]:
-        body = "".join("type %s mg.Namespace\n\n" % ns for ns in p["nss"])
-        body += "\n".join(_func(d) for d in p["decls"])
-        imports = ['\t"%s/probe"' % mod]
-        if p["nss"]:
-            imports.append('\t"github.com/magefile/mage/mg"')
-        if any(d["ctx"] for d in p["decls"]):
-            imports.append('\t"context"')
-        if any("time.Duration" in d["params"] for d in p["decls"]):
-            imports.append('\t"time"')
+        def imports_for(decls, nss):
+            imports = ['\t"%s/probe"' % mod] if decls else []
+            if nss:
+                imports.append('\t"github.com/magefile/mage/mg"')
+            if any(d["ctx"] for d in decls):
+                imports.append('\t"context"')
+            if any("time.Duration" in d["params"] for d in decls):
+                imports.append('\t"time"')
+            return imports
         if p["key"] == "":
+            # the local package may be spread over several magefiles: proj["split"] maps str(def) -> file index
+            split = proj.get("split") or {}
+            byfile = {0: [], 1: [], 2: []}
+            for d in p["decls"]:
+                byfile[split.get(str(d["def"]), 0)].append(d)
+            imports = imports_for(byfile[0], p["nss"])
             for q in proj["pkgs"]:
                 if not q["key"]:
                     continue
                 tag = "\t// mage:import" + (" " + q["alias"] if q["alias"] else "")
                 name = "" if q["key"] in referenced else "_ "
                 imports.append('%s\n\t%s"%s/imp/%s"' % (tag, name, mod, q["key"]))
-            src = "//go:build mage\n// +build mage\n\npackage main\n\nimport (\n%s\n)\n\n%s\n%s" % ("\n".join(imports), "\n".join(extra), body)
-            files["magefile.go"] = src
+            body = "".join("type %s mg.Namespace\n\n" % ns for ns in p["nss"]) + "\n".join(_func(d) for d in byfile[0])
+            imp = "import (\n%s\n)\n\n" % "\n".join(imports) if imports else ""
+            files["magefile.go"] = "//go:build mage\n// +build mage\n\npackage main\n\n%s%s\n%s" % (imp, "\n".join(extra), body)
+            for fi, fname in SPLIT_FILES.items():
+                if byfile[fi]:
+                    files[fname] = "//go:build mage\n// +build mage\n\npackage main\n\nimport (\n%s\n)\n\n%s" % (
+                        "\n".join(imports_for(byfile[fi], [])), "\n".join(_func(d) for d in byfile[fi]))
         else:
-            src = "package %s\n\nimport (\n%s\n)\n\n%s" % (p["pkgname"], "\n".join(imports), body)
+            body = "".join("type %s mg.Namespace\n\n" % ns for ns in p["nss"])
+            body += "\n".join(_func(d) for d in p["decls"])
+            src = "package %s\n\nimport (\n%s\n)\n\n%s" % (p["pkgname"], "\n".join(imports_for(p["decls"], p["nss"])), body)
             files["imp/%s/%s.go" % (p["key"], p["key"])] = src
     return files
+
+
+# magefile.go sorts between the two: an edit to a_targets.go is an edit to a file that is not last in name order
+SPLIT_FILES = {1: "a_targets.go", 2: "z_targets.go"}
+
+
+def gen_split(rng, proj, force_first=False):
+    """spread the local declarations over up to three magefiles"""
+    split = {}
+    decls = proj["pkgs"][0]["decls"]
+    for d in decls:
+        split[str(d["def"])] = rng.choice([0, 0, 1, 1, 2])
+    if force_first and decls and 1 not in split.values():
+        split[str(rng.choice(decls)["def"])] = 1
+    return split
+
+
+def gen_edit(rng, proj):
+    """the next generation of a package: ONE magefile (a_targets.go) is edited - a new target, a changed
+    parameter list, or a renamed target.  Returns the new spec; new["prev_files"] are the old sources and
+    new["edit"] says what changed."""
+    import copy
+    new = copy.deepcopy(proj)
+    new["prev_files"] = render(proj)
+    local = new["pkgs"][0]
+    used = set(target_name(p, d).lower() for p in new["pkgs"] for d in p["decls"]) | set(a.lower() for a, _ in new["aliases"])
+    go_names = set(local["nss"]) | set(d["name"] for d in local["decls"] if not d["recv"])
+    fresh = [n for n in ["Deploy2", "Publish", "Stage", "Rel", "Pkg", "Ship", "Sync", "W"] if n.lower() not in used and n not in go_names]
+    in_a = [d for d in local["decls"] if new["split"].get(str(d["def"])) == 1]
+    referenced = set(x[1] for x in new["aliases"]) | {new["default"]}
+    kinds = ["new"] + (["params", "params"] if in_a else []) + (["rename"] if [d for d in in_a if d["def"] not in referenced and not d["recv"]] else [])
+    kind = rng.choice(kinds) if fresh else "params"
+    if kind == "new":
+        nd = {"def": 1 + max(d["def"] for p in new["pkgs"] for d in p["decls"]), "name": rng.choice(fresh), "recv": "",
+              "params": [rng.choice(TYPES) for _ in range(rng.choice([0, 1, 2, 2]))], "ctx": rng.random() < 0.3, "err": rng.random() < 0.6,
+              "ptr": False, "group": False}
+        local["decls"].append(nd)
+        new["split"][str(nd["def"])] = 1
+        new["edit"] = {"kind": "new", "def": nd["def"]}
+    elif kind == "params":
+        d = rng.choice(in_a)
+        old = list(d["params"])
+        while d["params"] == old:
+            d["params"] = [rng.choice(TYPES) for _ in range(rng.choice([0, 1, 2, 3]))]
+        new["edit"] = {"kind": "params", "def": d["def"], "old_params": old}
+    else:
+        d = rng.choice([d for d in in_a if d["def"] not in referenced and not d["recv"]])
+        new["edit"] = {"kind": "rename", "def": d["def"], "old_name": d["name"]}
+        d["name"] = rng.choice(fresh)
+    return new
 
 
 def info(proj):
